@@ -6,7 +6,8 @@ import vlib
 
 PID = "C07"
 FILES = ["theories/Properties/C07.v", "theories/Properties/C07Derived.v", "theories/Properties/C07ErrFlow.v",
-         "theories/Examples/C07Examples.v", "theories/Examples/C07Wirings.v"]
+         "theories/Examples/C07Examples.v", "theories/Examples/C07Wirings.v",
+         "theories/Properties/C07Ctx.v", "theories/Examples/C07Ctx.v"]
 
 
 def hexs(s):
@@ -30,6 +31,42 @@ def veto_mode(t):
         if s == "@c07v" and ":" in i:
             return tuple(i.split(":", 1))
     return None
+
+
+STEP_TEXT = {"s": ".GetSystemContext()", "n": " -> boltz.NewSystemMutateContext(c)", "u": ".UpdateContext(f)",
+             "U": " -> db.Update(c, func(c2))", "B": " -> db.Batch(c, func(c2))",
+             "x": " -> boltz.NewTxMutateContext(c.Context(), c.Tx())"}
+
+
+def ctx_program(t):
+    """the context program of a transaction (harness/cmd/storageharness/store_c07_ctx.go): (open mode, [(site, path, kind)])
+    with site = -1 for a registration made on the context object before Db.Update / Db.Batch; the path holds only the
+    steps that are derivations at that site"""
+    opn = ""
+    for s, _, i in tx_vetoes(t):
+        if s == "@c07open":
+            opn = i
+    # "@c07open" may follow the registrations in the token list
+    out = []
+    for s, _, i in tx_vetoes(t):
+        if s == "@c07pc" and i.count(":") == 2:
+            site, path, kind = i.split(":")
+            path = "" if path == "-" else path
+            st = (0 if opn == "nil" else -1) if site == "pre" else int(site)
+            if st < 0:
+                path = "".join(ch for ch in path if ch in "snu")
+            out.append((st, path, kind))
+    return opn, out
+
+
+def reg_text(reg, nops):
+    site, path, kind = reg
+    where = ("on the context object before the transaction" if site < 0 else
+             "at the start of the function" if site == 0 else
+             "after the last operation" if site >= nops else "before operation %d of the function" % site)
+    via = "ctx" + "".join(STEP_TEXT.get(ch, "?") for ch in path)
+    what = {"f": "AddPreCommitAction(failing)", "o": "AddPreCommitAction(succeeding)", "c": "AddCommitAction"}.get(kind, kind)
+    return "%s: %s . %s" % (where, via, what)
 
 
 def coarse(results):
@@ -67,6 +104,13 @@ def oracle_(sch, txs, io, mo):
     prev = []
     for k, (t, a) in enumerate(zip(txs, io)):
         precommit_fails = t[1] == "1"
+        opn, regs = ctx_program(t)
+        nops = len(split_tx(t)[3]) if regs else 0
+        # a failing pre-commit action registered through a context that BELONGS to the transaction: no step of the
+        # derivation builds a new context object (design/C07.md section 8; Properties/C07Ctx.v)
+        live_fail = [r for r in regs if r[2] == "f" and "x" not in r[1]]
+        dead_fail = [r for r in regs if r[2] == "f" and "x" in r[1]]
+        ca_after = [x for x in a.get("other", ()) if x.startswith("CA-AFTER-ROLLBACK:")]
         has_fail_op = "FAIL" in t or "FAILT" in t
         raised = sorted(x.split(":", 2)[2] for x in a.get("other", ()) if x.startswith("RAISED:persist:"))
         mode = veto_mode(t)
@@ -90,11 +134,24 @@ def oracle_(sch, txs, io, mo):
             out.append(("C07:commit-after-error", "an operation returned an error but Db.Update committed", k))
         elif precommit_fails and a["commit"]:
             out.append(("C07:precommit-ignored", "a pre-commit action failed but the transaction committed", k))
+        elif live_fail and a["commit"]:
+            out.append(("C07:derived-context-precommit-ignored",
+                        "a failing pre-commit action was registered through a context that belongs to the transaction (%s%s) but it "
+                        "never failed the transaction: %s returned nil and the data committed (results %s)" % (
+                            reg_text(live_fail[0], nops),
+                            {"nil": "; transaction opened with a nil context", "plain": "; transaction opened with the plain context"}.get(opn, ""),
+                            "Db.Batch" if any(v[0] == "@batch" for v in tx_vetoes(t)) else "Db.Update", a["results"]), k))
         elif has_fail_op and a["commit"]:
             what = ("a create carrying a tag value the storage layer rejects (nested map among nil tags) reported success"
                     if "FAILT" in t else "the caller's function returned an error")
             out.append(("C07:failing-step-committed", what + " but the transaction committed (results %s)" % a["results"], k))
+        if dead_fail and not live_fail and not precommit_fails and a["commit"]:
+            ORACLE_HITS["candidate:precommit-on-new-tx-context-never-run"] = ORACLE_HITS.get("candidate:precommit-on-new-tx-context-never-run", 0) + 1
         if not a["commit"]:
+            if ca_after:
+                out.append(("C07:commit-action-after-rollback", "%s commit action(s) registered through a context of the transaction ran although "
+                            "the transaction failed (registrations: %s)" % (
+                                ca_after[0].split(":")[1], "; ".join(reg_text(r, nops) for r in regs if r[2] == "c")), k))
             if a["facts"] != prev:
                 out.append(("C07:partial-rollback", "a failed transaction changed the database: +%s -%s" % (
                     sorted(set(a["facts"]) - set(prev))[:5], sorted(set(prev) - set(a["facts"]))[:5]), k))
@@ -253,6 +310,21 @@ class Shrinker:
                             cand = txs[:j] + [(s_, p_, v_, ops[:o] + [op2] + ops[o + 1:])] + txs[j + 1:]
                             if ok(cand):
                                 txs, changed = cand, True
+            for j in range(len(txs)):                       # context programs: shorter derivations, earlier sites
+                for o in range(len(txs[j][2])):
+                    if txs[j][2][o][0] != "@c07pc":
+                        continue
+                    site, path, kind = unhex(txs[j][2][o][2]).split(":")
+                    cands = [(site, path[:q] + path[q + 1:] or "-", kind) for q in range(len(path))] if path != "-" else []
+                    if site not in ("pre", "0"):
+                        cands.append(("0", path, kind))
+                    for cand_reg in cands:
+                        s_, p_, v_, ops = txs[j]
+                        v2 = v_[:o] + [["@c07pc", "C", hexs(":".join(cand_reg))]] + v_[o + 1:]
+                        cand = txs[:j] + [(s_, p_, v2, ops)] + txs[j + 1:]
+                        if ok(cand):
+                            txs, changed = cand, True
+                            break
             for j in range(len(txs)):                       # vetoes and pseudo vetoes
                 for o in range(len(txs[j][2]) - 1, -1, -1):
                     s_, p_, v_, ops = txs[j]
@@ -334,9 +406,14 @@ def describe(case):
                 parts.append("Create %s/%s with a refused tag value" % (o[1], unhex(o[2])))
             else:
                 parts.append("caller error")
-        vt = ["%s/%s/%s" % (a, b, unhex(i)) for a, b, i in vetoes]
-        out.append("Db.Update%s%s%s { %s }" % (" [system ctx]" if s_ == "1" else "", " [failing pre-commit action]" if p_ == "1" else "",
-                                              " vetoes %s" % vt if vt else "", "; ".join(parts)))
+        vt = ["%s/%s/%s" % (a, b, unhex(i)) for a, b, i in vetoes if a not in ("@c07pc", "@c07open")]
+        opn, regs = ctx_program(p.split())
+        ctxp = ""
+        if regs or opn:
+            ctxp = " [%s%s]" % ({"nil": "opened with nil; ", "plain": "opened with the plain context; "}.get(opn, ""),
+                                "; ".join(reg_text(r, len(ops)) for r in regs))
+        out.append("Db.Update%s%s%s%s { %s }" % (" [system ctx]" if s_ == "1" else "", " [failing pre-commit action]" if p_ == "1" else "",
+                                                " vetoes %s" % vt if vt else "", ctxp, "; ".join(parts)))
     return " ;; ".join(out)
 
 
@@ -359,7 +436,10 @@ def main(argv):
                         "seeded histories of 1-7 transactions x 1-5 operations (create, update, delete, DeleteWhere with filter true / field = value, "
                         "link changes) over five schema wirings (C07cr twice in the rotation) (idx, fkc, casc; C07cr = refusing constraints on child stores only, required strings, "
                         "unindexed string list; C07tree = self-referencing cascade) with injected faults: caller error at a random position, failing "
-                        "pre-commit action, constraint vetoes of four error kinds raised at the pre-commit stage or inside the index constraints of the "
+                        "pre-commit action (registered on the context before the transaction or - a quarter of the transactions carry a context program - through "
+                        "contexts derived from the transaction's context: GetSystemContext / NewSystemMutateContext wrappers, UpdateContext, joined nested "
+                        "Db.Update / Db.Batch, NewTxMutateContext, at any position of the function, transactions opened with a plain, system or nil "
+                        "context; succeeding pre-commit actions and commit actions likewise), constraint vetoes of four error kinds raised at the pre-commit stage or inside the index constraints of the "
                         "store / its parent / its children, duplicates, missing fk targets, unusable keys (empty set-index value, blank id, over-long "
                         "index keys and list elements at the bbolt limit), empty required strings and refused tag values at parent and child level; "
                         "after every transaction the bolt file is traversed and compared with the model state, results and delivered events included.",
